@@ -5,6 +5,7 @@ from contracts.c01_programs import ProgramsContract, catalogue
 from contracts.c03_symbols import CONTRACTS as SYMBOL_CONTRACTS  # combine + build_model_definition header
 from contracts.c05_solve import SolveContract
 from props.parser_bounded import Classification
+from verif.crosscheck import TARGETS as _XT, EncoderCrossCheck
 from verif.spec import PropertySpec
 
 _tier = os.environ.get('VERIF_TIER', 'quick')
@@ -24,3 +25,5 @@ PROPERTY = PropertySpec(
     technique='contract-based deductive verification (pyvc + z3); per-program deductive checks',
     design_ref='DESIGN.md section 10 / C03',
 )
+
+PROPERTY.bounded.append(EncoderCrossCheck(_XT['C03']))
